@@ -160,7 +160,44 @@ def compare(res, out):
     return []
 
 
+def _tables(blocks):
+    for b in blocks:
+        if "tbl" in b:
+            yield [b]
+            for row in b["tbl"]["rows"]:
+                for c in row["cells"]:
+                    yield from _tables(c["blocks"])
+
+
 def classify(res):
+    """Domain of the open finding F-deleted-only-container (same defect as in C04): the batch deletes every visible
+    character of a story (header / footer / body) or of a table; the accepted view then drops that container together with
+    its separator, the preview - which works on the text - keeps the separator."""
+    doc = res["case"]["doc"]
+    dels = [sem.skeleton(e["target"]) for e in res["case"]["edits"] if not sem.skeleton(e.get("new") or "")]
+    if not any(dels):
+        return None
+    containers = list(sem.active_stories(doc))
+    for blocks in sem.active_stories(doc):
+        containers.extend(_tables(blocks))
+    for blocks in containers:
+        vis = sem.skeleton("".join(sem.accepted_text_of_para(p) for p in sem.iter_paragraphs(blocks)))
+        rest = vis
+        for t in dels:
+            if t and t in rest:
+                rest = rest.replace(t, "", 1)
+        if vis and not rest:
+            return "F-deleted-only-container"
+    return None
+    containers = list(sem.active_stories(doc))
+    for blocks in sem.active_stories(doc):
+        containers.extend(_tables(blocks))
+    for blocks in containers:
+        vis = sem.skeleton("".join(sem.accepted_text_of_para(p) for p in sem.iter_paragraphs(blocks)))
+        if vis and all(sem.skeleton(e["target"]) in vis for e in res["case"]["edits"] if e.get("new", "") == "") and \
+                len(vis) <= len(gone) and sorted(vis) == sorted("".join(sem.skeleton(e["target"]) for e in res["case"]["edits"]
+                                                                       if e.get("new", "") == "" and sem.skeleton(e["target"]) in vis)):
+            return "F-deleted-only-container"
     return None
 
 
